@@ -218,6 +218,28 @@ ChiCases == IF Family # "chi" THEN {} ELSE
                    : n \in MinN .. MaxN}
 ChiRec(k) == [fam |-> "chi", ob |-> k.ob, ex |-> k.ex, chi |-> ChiSquare(k.ob, k.ex), sc |-> Pow(SetMax(AlphaEnc) + 1, 2)]
 
+(******************************* family "dom" *******************************)
+\* decision-table rows for the documented behaviour on empty inputs:
+\*   Quantile and CDF panic if len(x) = 0; KolmogorovSmirnov is 0 for two empty samples
+\*   and 1 for exactly one empty sample; Histogram of no data is all zeros (or panics
+\*   when the dividers violate the documented conditions)
+DomShape(f, k, d, p8) == [f |-> f, x |-> k.x, w |-> k.w, nilw |-> k.nilw, d |-> d, p8 |-> p8]
+EmptySamples == {[x |-> <<>>, w |-> <<>>, nilw |-> b] : b \in BOOLEAN}
+DomCases == IF Family # "dom" THEN {} ELSE
+            {DomShape(f, e, <<>>, p8) : f \in {"QuantileEmp", "QuantileLin", "CDF"}, e \in EmptySamples, p8 \in {0, 3, 8}}
+            \cup {DomShape(f, k, <<>>, 0) : f \in {"KS.xempty", "KS.yempty"}, k \in SampleSpace \cup EmptySamples}
+            \cup {DomShape("Histogram", e, d, 0) : e \in EmptySamples, d \in DivSeqs}
+DomRec(k) ==
+    LET e == <<>> IN
+    [fam |-> "dom", f |-> k.f, x |-> k.x, w |-> k.w, nilw |-> k.nilw, d |-> k.d, p8 |-> k.p8,
+     out |-> CASE k.f \in {"QuantileEmp", "QuantileLin", "CDF"} -> IF Len(k.x) = 0 THEN "panic" ELSE "value"
+               [] k.f = "Histogram" -> IF HistDomain(k.d, k.x) THEN "count" ELSE "panic"
+               [] OTHER -> "value",
+     v |-> CASE k.f = "KS.xempty" -> KS(e, e, k.x, k.w)
+             [] k.f = "KS.yempty" -> KS(k.x, k.w, e, e)
+             [] OTHER -> <<0, 1>>,
+     count |-> IF k.f = "Histogram" /\ HistDomain(k.d, k.x) THEN Histogram(k.d, k.x, k.w) ELSE <<>>]
+
 (********************************* driver ***********************************)
 Cases == CASE Family = "uni"  -> {k \in UniCases : InShard(k.x, k.w)}
            [] Family = "ord"  -> {k \in OrdCases : InShard(k.x, k.w)}
@@ -228,6 +250,7 @@ Cases == CASE Family = "uni"  -> {k \in UniCases : InShard(k.x, k.w)}
            [] Family = "roc"  -> {k \in RocCases : InShard(k.y, k.w)}
            [] Family = "sort" -> SortCases
            [] Family = "chi"  -> ChiCases
+           [] Family = "dom"  -> DomCases
 
 Rec(k) == CASE Family = "uni"  -> UniRec(k)
             [] Family = "ord"  -> OrdRec(k)
@@ -238,6 +261,7 @@ Rec(k) == CASE Family = "uni"  -> UniRec(k)
             [] Family = "roc"  -> RocRec(k)
             [] Family = "sort" -> SortRec(k)
             [] Family = "chi"  -> ChiRec(k)
+            [] Family = "dom"  -> DomRec(k)
 
 Init == c \in Cases
 Next == UNCHANGED c
